@@ -465,7 +465,7 @@ func vfC09RunScenario(sta *State, chunks [][]byte, eof bool, dialMode string, re
 	sta.RedirDialer = &vfC09Dialer{w}
 	w.start(sta)
 	var o vfC09Obs
-	o.Unsettled = w.waitSettled(250*time.Millisecond, 10*time.Second)
+	o.Unsettled = w.waitSettled(150*time.Millisecond, 10*time.Second)
 	w.mu.Lock()
 	o.Ret = w.returned
 	o.Dials = w.dials
@@ -493,7 +493,7 @@ func vfC09RunScenario(sta *State, chunks [][]byte, eof bool, dialMode string, re
 		t0 := time.Now()
 		for {
 			done := w.peer.closed && (w.web == nil || w.web.closed)
-			if done || time.Since(t0) > 150*time.Millisecond {
+			if done || time.Since(t0) > 80*time.Millisecond {
 				o.FinUnsettled = !done
 				break
 			}
